@@ -739,6 +739,79 @@ Proof.
   - eapply IH; eauto.
 Qed.
 
+Fixpoint build_items (b : builder) (ks : list N) (next : N) (gen : nat) : list item :=
+  match ks with
+  | [] => []
+  | k :: r => {| it_key := k; it_gen := gen; it_nodes := fst (b k next) |}
+              :: build_items b r (snd (b k next)) (S gen)
+  end.
+Fixpoint build_next (b : builder) (ks : list N) (next : N) : N :=
+  match ks with [] => next | k :: r => build_next b r (snd (b k next)) end.
+
+Lemma build_items_keys : forall b ks next gen, map it_key (build_items b ks next gen) = ks.
+Proof. induction ks as [|k ks IH]; intros; cbn [build_items map it_key]; [|rewrite IH]; reflexivity. Qed.
+
+Lemma build_items_range : forall b ks next gen, bld_ok b ->
+  NoDup (flat_map it_nodes (build_items b ks next gen)) /\
+  (forall n, In n (flat_map it_nodes (build_items b ks next gen)) -> (next <= n < build_next b ks next)%N) /\
+  (next <= build_next b ks next)%N.
+Proof.
+  intros b ks. induction ks as [|k ks IH]; intros next gen Hb.
+  - simpl. split; [constructor|]. split; [intros n []|lia].
+  - cbn [build_items flat_map it_nodes build_next]. destruct (Hb k next) as [Hne [Hnd Hr]].
+    pose proof (bld_ok_mono b k next Hb) as Hm.
+    destruct (IH (snd (b k next)) (S gen) Hb) as [I1 [I2 I3]]. repeat split.
+    + clear -Hnd I1 I2 Hr. revert Hnd Hr. generalize (fst (b k next)) as l. induction l as [|x l IHl]; intros Hnd Hr; auto.
+      simpl. inversion Hnd; subst. constructor.
+      * intro Hc. apply in_app_or in Hc. destruct Hc as [Hc|Hc]; [contradiction|].
+        specialize (I2 x Hc). specialize (Hr x (or_introl eq_refl)). lia.
+      * apply IHl; auto. intros; apply Hr; right; auto.
+    + apply in_app_or in H. destruct H as [H|H]; [specialize (Hr n H); lia | specialize (I2 n H); lia].
+    + apply in_app_or in H. destruct H as [H|H]; [specialize (Hr n H); lia | specialize (I2 n H); lia].
+    + lia.
+Qed.
+
+Lemma build_items_nonempty : forall b ks next gen it, bld_ok b ->
+  In it (build_items b ks next gen) -> it_nodes it <> [].
+Proof.
+  induction ks as [|k ks IH]; intros next gen it Hb Hin; [contradiction|].
+  cbn [build_items] in Hin. destruct Hin as [E|Hin].
+  - subst. cbn [it_nodes]. apply Hb.
+  - eapply IH; eauto.
+Qed.
+
+
+Lemma add_tasks_build_items : forall b items adds next gen,
+  map snd (add_tasks b items next gen adds)
+  = build_items b (map (fun x => nth (a_at x) items 0%N) adds) next gen.
+Proof.
+  induction adds as [|a adds IH]; intros next gen; [reflexivity|].
+  cbn [add_tasks map snd build_items]. rewrite IH. reflexivity.
+Qed.
+
+Lemma add_next_build_next : forall b items adds next,
+  add_next b items next adds = build_next b (map (fun x => nth (a_at x) items 0%N) adds) next.
+Proof. induction adds as [|a adds IH]; intros next; [reflexivity|]. cbn [add_next map build_next]. apply IH. Qed.
+
+Lemma sorted_unique_nat : forall l1 l2 : list nat,
+  StronglySorted lt l1 -> StronglySorted lt l2 -> (forall x, In x l1 <-> In x l2) -> l1 = l2.
+Proof.
+  induction l1 as [|a l1 IH]; intros l2 S1 S2 E.
+  - destruct l2 as [|b l2]; auto. exfalso. apply (E b). left. auto.
+  - destruct l2 as [|b l2]. { exfalso. apply (E a). left. auto. }
+    inversion S1 as [|? ? S1' F1]; subst. inversion S2 as [|? ? S2' F2]; subst.
+    rewrite Forall_forall in F1, F2.
+    assert (a = b) as ->.
+    { destruct (E a) as [Ha _]. destruct (Ha (or_introl eq_refl)) as [Hb|Hb]; auto.
+      destruct (E b) as [_ Hb']. destruct (Hb' (or_introl eq_refl)) as [Hc|Hc]; auto.
+      specialize (F1 _ Hc). specialize (F2 _ Hb). lia. }
+    f_equal. apply IH; auto. intros x. split; intros H.
+    + destruct (E x) as [Hx _]. destruct (Hx (or_intror H)) as [Hb|Hb]; auto.
+      subst. specialize (F1 _ H). lia.
+    + destruct (E x) as [_ Hx]. destruct (Hx (or_intror H)) as [Hb|Hb]; auto.
+      subst. specialize (F2 _ H). lia.
+Qed.
+
 Lemma NoDup_app_intro : forall {A} (a b : list A), NoDup a -> NoDup b ->
   (forall x, In x a -> ~ In x b) -> NoDup (a ++ b).
 Proof.
@@ -924,6 +997,36 @@ Proof.
     rewrite Forall_forall in Hf. specialize (Hf (a_at y) (in_map a_at l y Hy)). lia.
   - apply IH; auto. intros y Hy. apply Hn. right. auto.
 Qed.
+
+Definition newkeys : list N := filter (fun k => negb (memN k from)) to.
+
+Lemma newkeys_eq : map (fun x => nth (a_at x) to 0%N) a = newkeys.
+Proof.
+  unfold newkeys.
+  transitivity (map (fun i => nth i to 0%N)
+                    (filter (fun i => negb (memN (nth i to 0%N) from)) (seq 0 (length to)))).
+  2:{ rewrite <- (filter_map_swap (fun k => negb (memN k from)) (fun i => nth i to 0%N)).
+      rewrite list_map_nth. reflexivity. }
+  rewrite <- (map_map a_at (fun i => nth i to 0%N)). f_equal.
+  apply sorted_unique_nat.
+  - exact (ls_add_sorted _ _ _ _ _ _ _ _ LS).
+  - apply StronglySorted_filter. apply seq_sorted.
+  - intros i. rewrite (ls_add _ _ _ _ _ _ _ _ LS), filter_In, in_seq. split.
+    + intros [Hr [t [Ht Hn]]]. assert (i < length to) by (apply nth_error_Some; congruence).
+      split; [lia|]. apply negb_true_iff, memN_false. rewrite (nth_error_nth _ _ _ Ht). exact Hn.
+    + intros [Hr Hn]. split; [lia|]. exists (nth i to 0%N). split.
+      * apply nth_error_nth'. lia.
+      * apply negb_true_iff, memN_false in Hn. exact Hn.
+Qed.
+
+Lemma news_eq : news = build_items b newkeys next gen.
+Proof. unfold news, tasksA. rewrite add_tasks_build_items, newkeys_eq. reflexivity. Qed.
+
+Lemma next_eq : add_next b to next a = build_next b newkeys next.
+Proof. rewrite add_next_build_next, newkeys_eq. reflexivity. Qed.
+
+Lemma length_a : length a = length newkeys.
+Proof. rewrite <- newkeys_eq, map_length. reflexivity. Qed.
 
 Lemma wf_all : wf_items pre post mk (add_next b to next a) all.
 Proof.
@@ -1595,6 +1698,18 @@ Proof.
   intros it Hit. destruct (Prov it Hit) as [Ho|Hn]; auto. right.
   unfold news in Hn. apply in_map_iff in Hn. destruct Hn as [[t x] [E Hin]]. cbn [snd] in E. subst x.
   apply add_tasks_fresh in Hin. exact Hin.
+Qed.
+
+(** which items are new, exactly: the items built, in order, for the keys of [to] that were
+    not rendered *)
+Theorem apply_general_new :
+  let w := apply_general b r ms a to w0 in
+  (forall it, In it (somes (w_children w)) -> In it its \/ In it (build_items b newkeys next gen)) /\
+  w_next w = build_next b newkeys next /\ w_gen w = gen + length newkeys.
+Proof.
+  pose proof apply_general_ok as H. cbv zeta in *.
+  destruct H as [P [K [D [Prov [Id [L [Nx [Gn W]]]]]]]].
+  rewrite <- news_eq, <- next_eq, <- length_a. auto.
 Qed.
 
 End Main.
